@@ -848,3 +848,95 @@ func EnumConvert(p *core.Prog, r *core.Report) {
 		r.Bad(rule, "basicCommonValidator", p.Pos(f.Pos()), "enum membership is not decided by comparing the instance converted to the member's type with that member: "+why)
 	}
 }
+
+// OneShot — AgainstSchema is NewSchemaValidator(schema, nil, "", formats, options…).Validate(data), and its
+// error is the composite of exactly the errors of that result (nil iff the result has none).
+func OneShot(p *core.Prog, r *core.Report) {
+	const rule = "ONESHOT-EQ"
+	f := p.Func("AgainstSchema")
+	if f == nil {
+		r.Unk(rule, "anchor", "-", "AgainstSchema not found")
+		return
+	}
+	var val *ssa.Call
+	core.EachInstr(f, func(i ssa.Instruction) {
+		if c, ok := core.IsCallTo(i, "(*validate.SchemaValidator).Validate"); ok {
+			val = c.(*ssa.Call)
+		}
+	})
+	ok := false
+	if val != nil && val.Call.Args[1] == ssa.Value(paramNamed(f, "data")) {
+		if ctor, is := val.Call.Args[0].(*ssa.Call); is {
+			if g := core.StaticCallee(ctor); g != nil && g.Name() == "NewSchemaValidator" &&
+				ctor.Call.Args[0] == ssa.Value(paramNamed(f, "schema")) && core.IsNilConst(ctor.Call.Args[1]) && ctor.Call.Args[3] == ssa.Value(paramNamed(f, "formats")) {
+				if k, isK := ctor.Call.Args[2].(*ssa.Const); isK && k.Value != nil && k.Value.ExactString() == `""` {
+					ok = true
+				}
+			}
+		}
+	}
+	if ok {
+		r.OK(rule, "AgainstSchema:delegates", p.Pos(f.Pos()), "NewSchemaValidator(schema, nil, \"\", formats, options…).Validate(data)")
+	} else {
+		r.Bad(rule, "AgainstSchema:delegates", p.Pos(f.Pos()), "the one-shot entry point no longer validates data with a validator built from the same schema, root and formats")
+	}
+	if val == nil {
+		return
+	}
+	// the result may live in a cell (captured by the deferred release)
+	isRes := func(v ssa.Value) bool {
+		if v == ssa.Value(val) {
+			return true
+		}
+		if cell := cellOf(v); cell != nil {
+			for _, ref := range core.Refs(cell) {
+				if st, is := ref.(*ssa.Store); is && st.Addr == ssa.Value(cell) && st.Val == ssa.Value(val) {
+					return true
+				}
+			}
+		}
+		return false
+	}
+	good := true
+	n := 0
+	for _, ri := range returnsOf(f) {
+		n++
+		hasErr, noErr := false, false
+		for _, c := range ri.conds {
+			if call, is := c.Value.(*ssa.Call); is {
+				if g := core.StaticCallee(call); g != nil && core.FuncName(g) == "(*Result).HasErrors" && isRes(call.Call.Args[0]) {
+					hasErr, noErr = hasErr || c.Sense, noErr || !c.Sense
+				}
+			}
+		}
+		if ri.nilRes {
+			if !noErr {
+				good = false
+			}
+			continue
+		}
+		comp, is := isCallOf(ri.val, "errors.CompositeValidationError")
+		if !is || !hasErr {
+			good = false
+			continue
+		}
+		ld, isLd := comp.Call.Args[0].(*ssa.UnOp)
+		if !isLd {
+			good = false
+			continue
+		}
+		fa, isFA := ld.X.(*ssa.FieldAddr)
+		if !isFA || !isRes(fa.X) {
+			good = false
+			continue
+		}
+		if _, fld, _ := core.FieldOf(fa); fld != "Errors" {
+			good = false
+		}
+	}
+	if good && n == 2 {
+		r.OK(rule, "AgainstSchema:error", p.Pos(f.Pos()), "nil on !res.HasErrors(), otherwise CompositeValidationError(res.Errors...) of the same result")
+	} else {
+		r.Bad(rule, "AgainstSchema:error", p.Pos(f.Pos()), "the error returned by AgainstSchema is not exactly the composite of the errors of the underlying result (nil iff none)")
+	}
+}
